@@ -10,6 +10,7 @@
 import NdnVerif.C10.LemmasTx
 import NdnVerif.C10.LemmasRx
 import NdnVerif.C10.LemmasLink
+import NdnVerif.C11.Props
 namespace Ndn.C10
 open Ndn.Gen.C10 (lpPacketOverhead fragmentOverhead sequenceOverhead fragIndexCountOverhead
   incomingFaceIdOverhead congestionMarkOverhead)
@@ -412,5 +413,71 @@ theorem consecutive_sends_disjoint (cfg : TxCfg) (hmtu : specMinMtu ≤ cfg.mtu)
 
 example : ((msgsOfAll { mtu := 128 } { nextSeq := 18446744073709551615 } []).map FMsg.base).Nodup :=
   consecutive_sends_disjoint { mtu := 128 } (by decide) rfl [] _ (fun _ h => by simp at h) (by decide)
+
+/-! ### The link service behind a stream face (round 13: the leg `rxs` of the correspondence) -/
+
+/-- **Every frame the link service sends is a block a stream face can carry.**  For every
+    configuration with an MTU of at most the maximum packet size, every sender state and every
+    packet within the protocol bounds, the frames handed to the transport are admissible blocks in
+    the sense of C11: well-formed TLVs (an LpPacket in shortest form) of at most 8800 bytes. -/
+theorem sent_frames_are_blocks (cfg : TxCfg) (st : TxSt) (p : OutPkt)
+    (hsize : p.wire.length ≤ specMaxPkt) (htok : p.token.length ≤ specMaxToken)
+    (hmtu : cfg.mtu ≤ specMaxPkt) :
+    Ndn.C11.Admissible (sendPacket cfg st p).2 := by
+  intro fr hfr
+  have hle := frame_le_mtu cfg st p hsize htok fr hfr
+  have h88 : fr.length ≤ 8800 := by simp only [specMaxPkt] at hmtu; omega
+  refine ⟨?_, by simpa [Ndn.C11.specMaxPkt] using h88⟩
+  simp only [sendPacket, List.mem_map] at hfr
+  obtain ⟨f, _, rfl⟩ := hfr
+  exact Ndn.C11.wellFormed_of_shortest ⟨ttLpPacket, encInner f, by decide, rfl⟩ (by omega)
+
+/-- **Fragments survive a stream face.**  The frames of ANY sequence of sends (each with its own
+    configuration, counter state and packet), concatenated on a TCP / Unix stream and read back in
+    ANY chunking — one byte at a time, reads ending inside a type or length field, hundreds of
+    kilobytes without a read ever ending on a frame boundary — come out of `readTlvStream` as exactly
+    those frames, in order, and the receive loop ends with EOF (no error, no stall). -/
+theorem fragments_survive_a_stream_face (sends : List (TxCfg × TxSt × OutPkt))
+    (hb : ∀ s ∈ sends, s.2.2.wire.length ≤ specMaxPkt ∧ s.2.2.token.length ≤ specMaxToken ∧ s.1.mtu ≤ specMaxPkt)
+    (chunks : List Bytes)
+    (hcut : chunks.flatten = (sends.flatMap fun s => (sendPacket s.1 s.2.1 s.2.2).2).flatten) :
+    Ndn.C11.run Ndn.C11.init chunks =
+      (sends.flatMap fun s => (sendPacket s.1 s.2.1 s.2.2).2, Ndn.C11.Outcome.eof) := by
+  apply Ndn.C11.stream_refines_blocks _ _ _ hcut
+  intro fr hfr
+  simp only [List.mem_flatMap] at hfr
+  obtain ⟨s, hs, hfr⟩ := hfr
+  obtain ⟨h1, h2, h3⟩ := hb s hs
+  exact sent_frames_are_blocks s.1 s.2.1 s.2.2 h1 h2 h3 fr hfr
+
+/-- … and therefore the receiving link service behind a stream face sees what it would see if every
+    frame were handed to it directly: reassembly over the framed stream is reassembly over the
+    frames (with `reassemble_any_interleaving`: every packet exactly once, byte-identical). -/
+theorem stream_face_then_reassembly (sends : List (TxCfg × TxSt × OutPkt))
+    (hb : ∀ s ∈ sends, s.2.2.wire.length ≤ specMaxPkt ∧ s.2.2.token.length ≤ specMaxToken ∧ s.1.mtu ≤ specMaxPkt)
+    (chunks : List Bytes)
+    (hcut : chunks.flatten = (sends.flatMap fun s => (sendPacket s.1 s.2.1 s.2.2).2).flatten)
+    (reasm : Bool) (validL3 : Bytes → Bool) (store : Store) :
+    rxRun reasm validL3 store (Ndn.C11.run Ndn.C11.init chunks).1 =
+      rxRun reasm validL3 store (sends.flatMap fun s => (sendPacket s.1 s.2.1 s.2.2).2) := by
+  rw [fragments_survive_a_stream_face sends hb chunks hcut]
+
+/-- non-vacuity: one send at MTU 128, its frame cut into three reads -/
+example : ∃ fr, (sendPacket { mtu := 128 } {} { wire := [6, 2, 7, 0] }).2 = [fr] ∧
+    Ndn.C11.run Ndn.C11.init [fr.take 1, (fr.drop 1).take 2, fr.drop 3] = ([fr], Ndn.C11.Outcome.eof) := by
+  refine ⟨encFrame { frag := [6, 2, 7, 0] }, ?_, ?_⟩
+  · rw [sendPacket, sendPacketF_single _ _ _ (by decide)]; simp [wholeOf, hdrOf, headerOf, congestionStep]
+  · have h := fragments_survive_a_stream_face [(({ mtu := 128 } : TxCfg), ({} : TxSt), ({ wire := [6, 2, 7, 0] } : OutPkt))]
+      (by intro s hs; simp at hs; subst hs; decide)
+      [(encFrame { frag := [6, 2, 7, 0] }).take 1, ((encFrame { frag := [6, 2, 7, 0] }).drop 1).take 2,
+        (encFrame { frag := [6, 2, 7, 0] }).drop 3]
+      (by
+        simp only [List.flatMap_cons, List.flatMap_nil, List.append_nil]
+        rw [sendPacket, sendPacketF_single _ _ _ (by decide)]
+        simp [wholeOf, hdrOf, headerOf, congestionStep]
+        decide)
+    simp only [List.flatMap_cons, List.flatMap_nil, List.append_nil] at h
+    rw [sendPacket, sendPacketF_single _ _ _ (by decide)] at h
+    simpa [wholeOf, hdrOf, headerOf, congestionStep] using h
 
 end Ndn.C10
